@@ -17,7 +17,10 @@ Proof.
   apply andb_true_iff in Ha. destruct Ha as [Ha _]. apply outcome_eqb_eq in Ha. subst obs.
   split; [apply never_panics; exact Hg|].
   intros Hm. destruct m as [[|p0 ps0]|]; try reflexivity.
-  simpl in Hm. apply andb_true_iff in Hm. destruct Hm as [Hs Hn].
-  apply filter_is_projection; auto; [|discriminate].
-  intros p Hp. rewrite forallb_forall in Hn. specialize (Hn p Hp). destruct p; [discriminate|discriminate].
+  unfold mask_segs_ok in Hm. apply andb_true_iff in Hm. destruct Hm as [Hs Hn].
+  apply filter_is_projection.
+  - exact Hg.
+  - exact Hs.
+  - intros p Hp. rewrite forallb_forall in Hn. specialize (Hn p Hp). destruct p; discriminate.
+  - discriminate.
 Qed.
